@@ -10,7 +10,7 @@ def main():
 
     def build(beh, k0):
         beh = [b for b in beh if b["zooms"]]
-        if run.thorough:
+        if run.thorough and not SWEEP:
             # the thorough enumeration is millions of layouts x every zoom query: a seeded stratum (1/4) per run keeps the tier under the hour
             beh = beh[run.seed % 4::4]
         cases = make_cases(beh, "bw", sizes, run, zq=1, k0=k0)
